@@ -19,6 +19,8 @@ mod c03;
 mod c17;
 mod c08;
 mod c15;
+mod schema;
+mod c16;
 
 fn main() {
     let args: Vec<String> = std::env::args().collect();
@@ -55,6 +57,7 @@ fn main() {
         "C17" => c17::run(&mut sink, thorough, seed),
         "C08" => c08::run(&mut sink, thorough, seed),
         "C15" => c15::run(&mut sink, thorough, seed),
+        "C16" => c16::run(&mut sink, thorough, seed),
         "replay" => { /* replay lines are `op args…` on stdin */
             let mut s = String::new();
             use std::io::Read;
@@ -89,6 +92,7 @@ fn replay(sink: &mut common::Sink, toks: &[&str]) {
         "maphist" | "mapeqh" | "mapeq" | "maphash" | "mapsort" => c17::replay(sink, toks),
         "f64lit" | "f32lit" => c08::replay(sink, toks),
         "tov" | "tovagree" => c15::replay(sink, toks),
+        "c16" => c16::replay(sink, toks),
         _ => eprintln!("cannot replay op {}", toks[0]),
     }
 }
